@@ -380,7 +380,7 @@ def main():
     if stats["missing"]:
         notes.append("%d shard(s) left no stats file" % stats["missing"])
 
-    if not replay:
+    if not replay and REPO == "/repo":
         write_evidence(cid, spec, tier, seed, stats, wall, nviol, notes)
 
     # known findings re-observed
@@ -393,7 +393,8 @@ def main():
         cid, tier, seed, stats["evaluations"], len(stats["nontrivial"]), wall, "; ".join(notes)))
 
     if nviol:
-        rdir = os.path.join(VERIF, "replays", cid)
+        # counter-examples found on a scratch copy (VERIF_REPO set) are kept apart from those of /repo itself
+        rdir = os.path.join(VERIF, "replays", cid) if REPO == "/repo" else os.path.join(VERIF, "work", "replays-scratch", cid)
         os.makedirs(rdir, exist_ok=True)
         replay_path = None
         for j in violation_jobs:
